@@ -44,12 +44,12 @@ class UndecidedValue(GenericValue):
                     new_code = self._file._token_to_code(new_token)
 
                     yield Replace(
-                        node=self._ast_node,
+                        node=node,
                         file=self._file,
                         new_code=new_code,
                         flag="update",
-                        old_value=self._old_value,
-                        new_value=self._old_value,
+                        old_value=obj,
+                        new_value=obj,
                     )
 
         if self._file._source is not None:
